@@ -80,4 +80,5 @@ def run(rep, fb, tier):
     __import__("vf.rules.lints3", fromlist=["x"]).rule_strides_inner_first(rep, fb)
     __import__("vf.rules.lints3", fromlist=["x"]).rule_union_length_is_tags(rep, fb)
     __import__("vf.rules.lints3", fromlist=["x"]).rule_adjusted_twin(rep, fb)
+    __import__("vf.rules.lints3", fromlist=["x"]).rule_alloc_len_stride(rep, fb)
     rep.units = fb.units
